@@ -89,7 +89,7 @@ func (m *arMember) expMode() string {
 	return m.Mode
 }
 
-var arNameStock = []string{"debian-binary", "control.tar.gz", "data.tar.xz", "_gpgorigin", "a", "x.o", "hello.txt", "0123456789abcdef"}
+var arNameStock = []string{"debian-binary", "control.tar.gz", "data.tar.xz", "_gpgorigin", "a", "x.o", "hello.txt", "0123456789abcdef", "dir/file", "usr/share/doc/ab", "a/b/c"}
 var arModes = []string{"100644", "100755", "644", "40755", "0"}
 
 func genArMember(t *rt.Tape, r *rt.Run, idx int, last bool) *arMember {
@@ -98,7 +98,13 @@ func genArMember(t *rt.Tape, r *rt.Run, idx int, last bool) *arMember {
 	if t.Bool(1, 2, "ar.stock") {
 		name = arNameStock[t.Draw(len(arNameStock), "ar.name")]
 	} else {
-		name = genFrom(t, lowerAlnum+"._-", 1, 16, "ar.namec")
+		name = genFrom(t, lowerAlnum+"._-", 1, 1, "ar.name0") + genFrom(t, lowerAlnum+"._-/", 0, 15, "ar.namec")
+		for strings.HasSuffix(name, "/") {
+			name = name[:len(name)-1] + "x" // the trailing '/' (terminator) is decided separately
+		}
+	}
+	if strings.Contains(name, "/") {
+		r.Probe("name-with-interior-slash")
 	}
 	m.Name, m.RawName = name, name
 	if len(name) == 16 {
